@@ -1302,6 +1302,106 @@ pub fn gen_trylock_no_handover(rng: &mut Rng) -> Program {
     p
 }
 
+/// Try-acquires whose results are a function of the order of the acquire operations (see
+/// `checks::try_acquires_decidable`): one thread tries once or twice (a successful attempt writes
+/// a cell and releases), holders either run a critical section without scheduling point or block
+/// inside it on a channel the trying thread feeds only after its last attempt. Completeness IS
+/// demanded here: each holder-before-try / try-before-holder order has its own outcome.
+pub fn gen_try_decidable(rng: &mut Rng) -> Program {
+    let mut vs = ValueSrc::new();
+    let use_rw = rng.chance(1, 3);
+    let n_blocked = rng.below(3);
+    let n_atomic = if n_blocked == 0 { rng.range(1, 2) } else { rng.below(3 - n_blocked) };
+    let mut p = Program { atomics: vec![0], n_mutex: if use_rw { 0 } else { 1 }, n_rwlock: if use_rw { 1 } else { 0 }, n_cell: 1, n_chan: n_blocked as u8, ..Default::default() };
+    // role bodies
+    let mut roles: Vec<Vec<Op>> = Vec::new();
+    let mut trier: Vec<Op> = Vec::new();
+    let n_tries = rng.range(1, 2);
+    for i in 0..n_tries {
+        if i > 0 && rng.chance(1, 2) {
+            trier.push(Op::Store { a: 0, v: vs.constant(), o: MO::Rlx });
+        }
+        let (try_, body, undo) = if use_rw {
+            if rng.chance(1, 2) {
+                (Op::TryRLock { l: 0 }, Op::CRead { c: 0 }, Op::RUnlock { l: 0 })
+            } else {
+                (Op::TryWLock { l: 0 }, Op::CWrite { c: 0, v: vs.constant() }, Op::WUnlock { l: 0 })
+            }
+        } else {
+            (Op::TryLock { m: 0 }, Op::CWrite { c: 0, v: vs.constant() }, Op::Unlock { m: 0 })
+        };
+        let pc = trier.len() as u8;
+        trier.push(try_);
+        trier.push(Op::If { pc, eq: 1, then: Box::new(body) });
+        trier.push(Op::If { pc, eq: 1, then: Box::new(undo) });
+    }
+    for c in 0..n_blocked {
+        trier.push(Op::Send { c: c as u8, v: vs.constant() });
+    }
+    roles.push(trier);
+    for i in 0..(n_blocked + n_atomic) {
+        let (acq, body, rel) = if use_rw {
+            if rng.chance(1, 2) {
+                (Op::RLock { l: 0 }, Op::CRead { c: 0 }, Op::RUnlock { l: 0 })
+            } else {
+                (Op::WLock { l: 0 }, Op::CWrite { c: 0, v: vs.constant() }, Op::WUnlock { l: 0 })
+            }
+        } else {
+            (Op::Lock { m: 0 }, Op::CWrite { c: 0, v: vs.constant() }, Op::Unlock { m: 0 })
+        };
+        let mut b = vec![acq];
+        if i < n_blocked {
+            if rng.chance(1, 2) {
+                b.push(body);
+                b.push(Op::Recv { c: i as u8 });
+            } else {
+                b.push(Op::Recv { c: i as u8 });
+                if rng.chance(1, 2) {
+                    b.push(body);
+                }
+            }
+        } else {
+            b.push(body);
+            if rng.chance(1, 3) {
+                b.insert(0, Op::Load { a: 0, o: MO::Rlx });
+            }
+        }
+        b.push(rel);
+        roles.push(b);
+    }
+    rng.shuffle(&mut roles);
+    // main either only coordinates or plays the last role itself, after having started the others
+    let main_plays = rng.chance(1, 2);
+    let main_role = if main_plays { roles.pop() } else { None };
+    let mut t0: Vec<Op> = Vec::new();
+    for t in 1..=roles.len() {
+        t0.push(Op::Spawn { t: t as u8 });
+    }
+    if let Some(r) = main_role {
+        // (the `If`s of the trying role refer to their own thread's op indices)
+        let base = t0.len() as u8;
+        for op in r {
+            t0.push(match op {
+                Op::If { pc, eq, then } => Op::If { pc: pc + base, eq, then },
+                o => o,
+            });
+        }
+    }
+    for t in 1..=roles.len() {
+        t0.push(Op::Join { t: t as u8 });
+    }
+    // the final value of the cell, read under the lock
+    if use_rw {
+        t0.extend(vec![Op::RLock { l: 0 }, Op::CRead { c: 0 }, Op::RUnlock { l: 0 }]);
+    } else {
+        t0.extend(vec![Op::Lock { m: 0 }, Op::CRead { c: 0 }, Op::Unlock { m: 0 }]);
+    }
+    let mut threads = vec![t0];
+    threads.extend(roles);
+    p.threads = threads;
+    p
+}
+
 /// park / unpark as message passing: the parked thread looks at data afterwards; one unparker
 /// publishes before it unparks, another one unparks without publishing (so that returning from
 /// `park` must synchronise with exactly the unpark that woke it, in every iteration anew).
